@@ -28,7 +28,8 @@ def main():
                 dst = os.path.join(wt, pkgdir or "", rel)
                 os.makedirs(os.path.dirname(dst), exist_ok=True)
                 shutil.copy(os.path.join(root, f), dst); demos.append(dst)
-        cmd = meta["demo_cmd"].replace("$PWD", wt)
+        seedroot = os.path.dirname(os.path.dirname(os.path.abspath(src)))
+        cmd = meta["demo_cmd"].replace("$PWD", wt).replace(seedroot, wt)
         rc0, o0 = sh(cmd, cwd=wt)
         out["demo_without_patch"] = "pass" if rc0 == 0 else "FAIL"
         rc, o = sh("git apply %s" % os.path.join(src, "patch.diff"), cwd=wt)
